@@ -1,6 +1,10 @@
 # shared by bin/setup and bin/check
 VERIF_ROOT=${VERIF_ROOT:-/verif}
 export VERIF_ROOT
+# the subject: /repo, always, for every registered command; VERIF_REPO exists for the lab tools only (bin/lab_env.sh),
+# which evaluate seeded changes on a scratch copy so that /repo itself stays untouched meanwhile
+REPO=${VERIF_REPO:-/repo}
+export VERIF_REPO=$REPO
 export CARGO_NET_OFFLINE=true
 export RUSTFLAGS="--cfg rustls_rcgen_verif"
 HARNESS=$VERIF_ROOT/harness
@@ -33,7 +37,7 @@ build_cli() {
     ring) feats="--no-default-features --features ring" ;;
     aws) feats="--no-default-features --features aws_lc_rs" ;;
   esac
-  if ! (RUSTFLAGS="" cargo build --release --offline --locked --manifest-path /repo/Cargo.toml -p rustls-cert-gen $feats --target-dir "$HARNESS/target/cli-$b") >"$LOGDIR/build-cli-$b.log" 2>&1; then
+  if ! (RUSTFLAGS="" cargo build --release --offline --locked --manifest-path "$REPO/Cargo.toml" -p rustls-cert-gen $feats --target-dir "$HARNESS/target/cli-$b") >"$LOGDIR/build-cli-$b.log" 2>&1; then
     echo "MACHINERY-ERROR: CLI build ($b) failed; last lines of $LOGDIR/build-cli-$b.log:" >&2
     tail -n 25 "$LOGDIR/build-cli-$b.log" >&2
     return 2
